@@ -106,6 +106,8 @@ def build(name, harness_srcs, groups, extra_flags=(), libs=()):
         libs = list(libs) + ["--coverage"]
     flags = BASE_FLAGS + list(extra_flags)
     srcs = [os.path.join(VERIF, "harness", s) for s in harness_srcs]
+    if os.environ.get("VERIF_COVERAGE"):
+        srcs.append(os.path.join(VERIF, "harness", "cov_exit.cpp"))
     for g in groups:
         srcs += [os.path.join(REPO, s) for s in GROUPS[g]]
     with cf.ThreadPoolExecutor(max_workers=int(os.environ.get("VERIF_JOBS", "16"))) as ex:
